@@ -35,7 +35,9 @@ var mapping = seq.Mapping{
 	"g": seq.NewSingleType(seq.TokenizerTypeKeyword, "", 0),
 }
 
-// guarded runs f; a panic or a hang (20 s) is reported, never propagated.
+// guarded runs f; a panic or a hang (hangAfter) is reported, never propagated.
+const hangAfter = 180 * time.Second
+
 func guarded(f func() error) (err error, panicked any, hung bool) {
 	type r struct {
 		err error
@@ -53,7 +55,7 @@ func guarded(f func() error) (err error, panicked any, hung bool) {
 	select {
 	case x := <-ch:
 		return x.err, x.p, false
-	case <-time.After(20 * time.Second):
+	case <-time.After(hangAfter):
 		return nil, nil, true
 	}
 }
@@ -61,7 +63,7 @@ func guarded(f func() error) (err error, panicked any, hung bool) {
 func direct(w *casefile.Writer, class string, sp *Spec, err error, p any, hung bool) bool {
 	switch {
 	case hung:
-		w.Violate("hang:"+class, "the call did not return within 20 s", sp)
+		w.Violate("hang:"+class, "the call did not return within 180 s", sp)
 	case p != nil:
 		w.Violate("panic:"+class, fmt.Sprintf("panic: %v", p), sp)
 	case err != nil:
